@@ -963,7 +963,7 @@ class _Run:
         trace += lines[:300]
         return {"violations": self.violations, "probes": self.probes, "faults": {}, "sig": sig,
                 "nontrivial": sc.preemptions > 0 or sc.lock_contended > 0, "events": sc.steps, "sim_us": sc.now_us - sc.t0_us,
-                "digest": h.hexdigest(), "trace": trace, "schedule": [list(x) for x in sc.switches]}
+                "digest": h.hexdigest(), "trace": trace, "schedule": sc.schedule()}
 
 
 class _Budget(Exception):
@@ -981,3 +981,6 @@ def execute(plan: dict) -> dict:
     run.go()
     run.judge()
     return run.result()
+
+
+SHRINKERS = [lambda plan: S.shrink_schedule(plan, execute)]
